@@ -355,30 +355,45 @@ func (c *c14Cot) drop() bool {
 	return ok
 }
 
+// the (big) streams of kinds 10..12 are expanded once per case and shared read-only by all
+// goroutines and repetitions
+var c14Streams sync.Map
+
+func c14Bytes(v V) []byte {
+	if b, ok := v.(VB); ok {
+		return b
+	}
+	key := Show(v)
+	if b, ok := c14Streams.Load(key); ok {
+		return b.([]byte)
+	}
+	b, _ := c14Streams.LoadOrStore(key, AsBytes(v))
+	return b.([]byte)
+}
+
 // kind 10: successive users of pooled ReaderSkipDecoders with big values
 func c14BigSkip(p []V) V {
 	users := AsList(p[0])
-	mx := 0
+	// the co-tenant's classes: two small ones and those of the decoder's buffer after each big
+	// value (growSlow asks for exactly p.n+n bytes: the class of the value's size)
+	cot := c14NewCot(2, 2, len(users))
+	cot.classes = append(cot.classes, 12)
+	seen := map[int]bool{2: true, 12: true}
 	for _, u := range users {
-		if n := len(AsBytes(AsList(u)[0])); n > mx {
-			mx = n
+		for _, it := range AsList(AsList(u)[1]) {
+			if n := AsInt(AsList(it)[1]); n > 60000 {
+				if cl := c14ClassOf(n); !seen[cl] && cl <= 22 {
+					seen[cl] = true
+					cot.classes = append(cot.classes, cl)
+				}
+			}
 		}
 	}
-	hi := c14ClassOf(mx) + 1
-	if hi < 13 {
-		hi = 13
-	}
-	if hi > 22 {
-		hi = 22
-	}
-	// the classes the decoder's big buffers fall into, and two small ones
-	cot := c14NewCot(hi-2, hi, mx)
-	cot.classes = append([]int{2, 12}, cot.classes...)
 	var ck c14Chk
 	cot.take(1)
 	for _, u := range users {
 		ua := AsList(u)
-		stream := AsBytes(ua[0])
+		stream := c14Bytes(ua[0])
 		src := &c09Src{data: stream, final: io.EOF, chunks: c09Expand(ua[2])}
 		d := thrift.NewReaderSkipDecoder(src)
 		base, _, _, _ := thrift.VerifOwnRSD(d)
@@ -393,7 +408,7 @@ func c14BigSkip(p []V) V {
 			cot.repaint()
 			ck.ok(err == nil && string(b) == string(stream[pos:pos+n]))
 			if n > 60000 {
-				ck.ok(cot.cycle(2)) // what the decoder freed while growing is now painted by the co-tenant
+				ck.ok(cot.cycle(1)) // what the decoder freed while growing is now painted by the co-tenant
 				ck.ok(err == nil && string(b) == string(stream[pos:pos+n]))
 			}
 			pos += n
@@ -410,11 +425,11 @@ func c14Retain(kind int, p []V, ops []V) V {
 	var r *bufiox.DefaultReader
 	var stream, arr, pristine []byte
 	if kind == 11 {
-		src := c09MkSrc(p, nil)
+		src := c09MkSrc(append([]V{VB(c14Bytes(p[0]))}, p[1:]...), nil)
 		stream = src.data
 		r = bufiox.NewDefaultReader(src)
 	} else {
-		pre, data, spare := AsBytes(p[0]), AsBytes(p[1]), AsBytes(p[2])
+		pre, data, spare := AsBytes(p[0]), c14Bytes(p[1]), AsBytes(p[2])
 		arr = append(append(append(make([]byte, 0, len(pre)+len(data)+len(spare)), pre...), data...), spare...)
 		pristine = append([]byte(nil), arr...)
 		stream = data
@@ -878,7 +893,11 @@ func c14Run(in V) V {
 	if fn := os.Getenv("VERIF_C14_CUR"); fn != "" { // lets ./check name the case a race report belongs to
 		os.WriteFile(fn, []byte(Show(in)), 0o644)
 	}
-	c14Once.Do(func() { debug.SetGCPercent(800) }) // fewer collections: the pools keep their (big) blocks longer
+	// collect between cases (and when 3 GiB are reached) only: inside a case the pools keep their
+	// blocks, so that what one goroutine frees is what another one gets
+	c14Once.Do(func() { debug.SetGCPercent(-1); debug.SetMemoryLimit(3 << 30) })
+	runtime.GC()
+	c14Streams.Range(func(k, _ interface{}) bool { c14Streams.Delete(k); return true })
 	a := AsList(in)
 	G, R := AsInt(a[0]), AsInt(a[1])
 	scripts := AsList(a[2])
@@ -984,7 +1003,8 @@ func genC14(g *Gen) {
 		return Ls(I(6), Ls(I(g.R.Intn(1<<30)), kvs), Ls())
 	}
 	// kind 10: users of pooled ReaderSkipDecoders with big values (sizes: payload of the big value, 0 = small only)
-	bigPlans := [][]int{{70000, 0}, {66000, 0, 70000}, {65537, 140000}, {140000, 0, 0}, {0, 70000, 0}, {200000, 66000}, {300000, 0}, {70000, 70001, 0}}
+	bigPlans := [][]int{{70000, 0}, {66000, 0, 70000}, {65537, 140000}, {140000, 0, 0}, {0, 70000, 0}, {200000, 66000}, {300000, 0}, {70000, 70001, 0},
+		{65537, 0}, {0, 66000}, {70000, 0, 0}, {100000, 0}, {66000, 70000}, {131073, 0}}
 	bigskip := func(huge bool) V {
 		plan := bigPlans[g.R.Intn(len(bigPlans))]
 		if huge {
@@ -1042,7 +1062,10 @@ func genC14(g *Gen) {
 		dl := n1 + n2 + n3 + 10 + g.R.Intn(5000)
 		ch := []V{Ls(), Ls(Ls(I(1000), I(dl/1000+2))), Ls(I(4096), Ls(I(3000), I(dl/3000+2))), Ls(I(n1), I(100000))}[g.R.Intn(4)]
 		var ops VL
-		switch g.R.Intn(4) {
+		switch g.R.Intn(5) {
+		case 4: // everything read so far consumed (the source delivers exactly n1 first), then growth
+			ch = Ls(I(n1), I(100000))
+			ops = VL{rop(0, n1), rop(0, n2), rop(1, n3), rrel, rop(0, 1), rrel}
 		case 0: // Peek right after New, held across one and two growths
 			ops = VL{rop(1, n1), rop(1, n2), rop(1, n3), rop(0, n1), rrel}
 		case 1: // Peek right after a Release that kept unread bytes, then growth
@@ -1109,7 +1132,7 @@ func genC14(g *Gen) {
 				}
 				switch sel {
 				case 9:
-					if !focus && g.R.Intn(4) != 0 {
+					if !focus && g.R.Intn(8) != 0 {
 						s = append(s, lib[g.R.Intn(len(lib))])
 						break
 					}
@@ -1120,7 +1143,7 @@ func genC14(g *Gen) {
 				case 11:
 					if g.R.Intn(2) == 0 {
 						s = append(s, retain())
-					} else if g.R.Intn(4) == 0 {
+					} else if g.R.Intn(8) == 0 {
 						nbig++
 						s = append(s, bigskip(false))
 					} else {
